@@ -42,6 +42,15 @@ CLAIMED = {
  "C18": ("proptest-generated tables/permutations vs an independent stable-sort reference; exhaustive permutations n<=5; compiled sort vs reference under global and three-party execution",
          "Random search with shrinking: Sort on tables (1-12 rows, key widths 1-10 incl. odd widths, duplicate keys, 0-3 payload columns of any type/rank) vs the harness's own stable sort applied to every column; SortByIntegerKey for all 11 key types (row multiset preserved, key non-decreasing numerically); all permutations n<=5 and random n<=12: apply then inverse restores the array and the two are gather/scatter; compiled Sort/ApplyPermutation(public permutation)/integer-key sort vs the reference with the global evaluator (2 seeds) and the three-party executor.",
          "Trusted: the harness reference sort/gather; execution model of runtime.md. Private additively-shared permutation operands are excluded (known finding F-C01-1)."),
+ "C06": ("proptest-generated inlined contexts given to optimize_context; differential evaluation with a tape evaluator (random draws replayed by node identity) + mapping/interface/type/reload invariants",
+         "Random search with shrinking over fully inlined contexts of 1-3 graphs rich in what the four passes rewrite (constants and foldable expressions incl. 128-bit, tuple/named tuple/vector/zip constructors followed by getters, A2B/B2A chains with equal and unequal types, duplicated nodes, dangling nodes, unused inputs, names, Private and Send annotations, Random/PRF nodes). Oracle per graph and 3 input vectors: output value equal under tape_eval; every mapped node has the value and type of its image; Input sequence (type, name, order) unchanged; live Send markers kept on nodes with the same value and none invented; every recorded type equals the re-inferred one; the result reloads (serde) deep-equal and evaluates identically.",
+         "Trusted: SimpleEvaluator per node; tape_eval's definition of 'same random draws' (fresh evaluator seeded from the node's pre-image identity). Names of replaced nodes are not compared (documented as not preserved)."),
+ "C11": ("model-based stateful testing: proptest-generated API-call histories interpreted against the real context and a harness model; invariants after every call; failed-call removal oracle; run under two builds",
+         "Histories of 3-80 public API calls over 1-2 contexts (graphs, nodes of any operation with valid and invalid arguments incl. foreign/unfinalized/younger graphs and over-limit types, names, annotations, outputs, finalization, main graph, call/iterate, mutators after finalization). After every call: well-formedness through getters (wf.rs), getter dump + decoded serialized form equal to the harness model, byte-identical serialized text and getter dump after any Err, no panic, documented guards hold; removal oracle: the history re-run without its failed calls gives the same results and final state. Run with the normal build and with ciphercore-base's own `fuzzing` feature (small size limits) so the size-limit rollback paths are reached.",
+         "Trusted: the harness model's predictions of documented failures and of result types for ~20 operation kinds (for the rest either outcome is accepted but an Err must leave no trace). Serialized text is compared within one process only."),
+ "C17": ("exhaustive operand grids for small widths + proptest-generated operands with broadcasting; oracle = exact u128 integer arithmetic",
+         "BinaryAdd: all operand pairs for w<=8 with and without overflow bit, corner products up to 128 bits, random with broadcasting; Mux: bit and all integer scalar types with three-way broadcasting; Clip2K: all inputs for w<=10 x every k, corners up to 128 bits; LongDivision: all pairs for widths (2,4,8)^2 signed/unsigned, corner grids for widths 2..128, random: floored quotient/remainder, q*d+r=dividend mod 2^w, remainder sign, |r|<|d|.",
+         "Trusted: harness integer arithmetic, broadcasting and decoding. Two defects found here were repaired (fix: commits 48986db Mux, f42a5fe LongDivision); rejection of rank-1 LongDivision operands is a recorded known finding."),
  "C13": ("proptest generated integers/values vs reference byte encoder and structural layout predicate; JSON round-trip oracle",
          "Random search with shrinking over (scalar type x source integer type x boundary-heavy integers x ragged bit arrays x nested container types): read-back == integers mod 2^w with sign extension, bytes == the harness's own little-endian/LSB-first encoder, check_type <=> independent layout predicate (matching and near-miss layouts), JSON text parses back to an equal typed value. Sampling, not proof.",
          "Trusted: the harness's reference encoder/decoder (hv.rs) and layout predicate; serde_json itself. Two JSON format limitations are recorded as known findings and excluded by signature."),
@@ -67,7 +76,7 @@ for i in ids:
 na = [{"property_id": i, "reason": NOT_YET} for i in ids if i not in CLAIMED]
 m = {
  "version": 1,
- "setup_cmd": "cd /verif/harness && CARGO_NET_OFFLINE=true cargo build --release --offline",
+ "setup_cmd": "cd /verif/harness && CARGO_NET_OFFLINE=true cargo build --release --offline && CARGO_NET_OFFLINE=true cargo build --release --offline --features small --target-dir target-small",
  "hooks": {
    "guard": "--cfg ciphercore_verif",
    "enable": "none needed: the harness links /repo/ciphercore-base as a path dependency and uses its public API only; no hook commits exist",
